@@ -268,7 +268,7 @@ func (c *c06) gen(depth int, budget *int) *fx {
 		n.tag = fmt.Sprintf("m4%d", n.id)
 		n.kids = []*fx{kid(), kid(), kid(), kid()}
 	case opSeq:
-		n.k = r.Choose(11, "seqk")
+		n.k = r.Choose(13, "seqk")
 		nk := r.Choose(5, "seqn")
 		for i := 0; i < nk; i++ {
 			n.kids = append(n.kids, kid())
@@ -1018,6 +1018,10 @@ func (c *c06) build0(n *fx) fp.Future[int] {
 				return future.Map(fn(i), acc.Add, ctx...)
 			}, ctx...)
 			return future.Map(ff, hs, ctx...)
+		case 11:
+			return future.Map(future.TraverseFunc(fn, ctx...)(iterator.FromSlice(idx)), func(it fp.Iterator[int]) int { return hashSeq(it.ToSeq()) }, ctx...)
+		case 12:
+			return future.Map(future.TraverseSliceFunc(fn, ctx...)(idx), func(s []int) int { return hashSeq(s) }, ctx...)
 		case 9:
 			ff := seq.FoldFuture(fp.Seq[int](idx), seq.Empty[int](), func(acc fp.Seq[int], i int) fp.Future[fp.Seq[int]] {
 				return future.Map(fn(i), acc.Add, ctx...)
